@@ -291,7 +291,13 @@ func paramStorm(run *kit.Run, forward bool) {
 				rq := reqs[(i+g)%len(reqs)]
 				if i%5 == 4 {
 					if rte, cc, _ := f.Lookup(nil, rq); rte != nil {
-						check(cc)
+						if i%10 == 4 {
+							check(cc)
+						} else {
+							// manual dispatch through the route's own middleware chain (the very first requests of all goroutines
+							// reach a route's chain at the same time)
+							rte.HandleMiddleware(cc)
+						}
 						cc.Close()
 					}
 				} else if i%11 == 5 {
